@@ -623,12 +623,16 @@ fn main() {
         if r1.is_err() || r2.is_err() {
             direct_failures.push(json!({"what": format!("schema declaration printer fails: sdl={:?} json={:?}", r1.err().map(|e| format!("{e:?}")), r2.err().map(|e| format!("{e:?}"))), "classes": [], "sdl": sdl, "json": jt}));
         } else {
-            let (a1, a2) = (aliases(&w1.text()), aliases(&w2.text()));
+            // a union of names (an interface = its implementers in declaration order) is compared as a set
+            let norm = |m: BTreeMap<(String, String), String>| -> BTreeMap<(String, String), String> { m.into_iter().map(|(k, v)| {
+                let b = v.trim().trim_end_matches(';').trim();
+                if !b.is_empty() && b.chars().all(|c| c.is_ascii_alphanumeric() || c == '_' || c == '|' || c == ' ') { let mut ms: Vec<&str> = b.split('|').map(|x| x.trim()).collect(); ms.sort(); (k, ms.join(" | ")) } else { let mut ls: Vec<&str> = v.lines().collect(); ls.sort(); (k, ls.join("\n")) } }).collect() };
+            let (a1, a2) = (norm(aliases(&w1.text())), norm(aliases(&w2.text())));
             let mut only_sdl = vec![]; let mut only_json = vec![]; let mut differ = vec![];
             for (k, v) in &a1 { match a2.get(k) { None => only_sdl.push(format!("{}.{}", k.0, k.1)), Some(v2) => if v != v2 { differ.push(format!("{}.{}", k.0, k.1)); } } }
             for k in a2.keys() { if !a1.contains_key(k) { only_json.push(format!("{}.{}", k.0, k.1)); } }
             let any = !only_sdl.is_empty() || !only_json.is_empty() || !differ.is_empty();
-            if !differ.is_empty() { st.n_alias_text_diff += 1; }
+            if !differ.is_empty() { st.n_alias_text_diff += 1; if std::env::var("LOUD").is_ok() { for k in &differ { let (a, b) = k.split_once('.').unwrap(); let key = (a.to_string(), b.to_string()); eprintln!("DIFF {k}\n sdl: {:?}\n json: {:?}", a1.get(&key), a2.get(&key)); } } }
             let d = json!({"kind": "alias", "sdl": sdl, "json": jt, "only_sdl": only_sdl, "only_json": only_json, "differ": differ});
             let t = |strict: bool| format!("CAlias {} {} {}", coq_bool(strict), wops_coq(&w1.0), wops_coq(&w2.0));
             if i % 2 == 0 || thorough { cases.push(t(false), d.clone()); }
